@@ -270,7 +270,7 @@ def tidy_order(order, cfg):
     return steps
 
 
-def fixed_scenarios(cfg):
+def fixed_scenarios(cfg, split=None):
     sc = []
     canon = []
     for t in TREES:
@@ -309,8 +309,85 @@ def fixed_scenarios(cfg):
                 first.append({"k": "Add", "tree": t, "idx": i, "kind": "poison_spent"})
             first.append({"k": "Add", "tree": t, "idx": i, "kind": "honest"})
     sc.append({"name": "poisoned_then_retry", "kind": "pibd", "steps": first + [{"k": "Finalize"}, {"k": "Restart"}] + canon})
+    # a segment that validates but carries the two children of a pruned subtree root next to the root: its batch
+    # cannot be applied -> apply_next_segments fails -> the restart sequence -> an honest retry, which must end in
+    # the same state as the twin
+    for t in ("output", "rangeproof"):
+        have = [x["idx"] for x in (split or {}).get(t, [])]
+        if not have:
+            continue
+        target = have[-1]
+        st = []
+        for i in range(cfg["nseg"]["bitmap"]):
+            st.append({"k": "Add", "tree": "bitmap", "idx": i, "kind": "honest"})
+        st += [{"k": "Apply"}] * (cfg["nseg"]["bitmap"] + 1)
+        for t2 in ("output", "rangeproof", "kernel"):
+            for i in range(cfg["nseg"][t2]):
+                if t2 == t and i == target:
+                    st.append({"k": "Add", "tree": t2, "idx": i, "kind": "split_root"})
+                st.append({"k": "Add", "tree": t2, "idx": i, "kind": "honest"})
+        # enough rounds for the batch with the target to come up, then the restart
+        sc.append({"name": "split_root_%s_then_retry" % t, "kind": "pibd",
+                   "steps": st + [{"k": "ApplyUntilErr", "max": cfg["nseg"][t] + 2}, {"k": "Restart"}] + canon})
     sc.append({"name": "archive", "kind": "archive"})
     return sc
+
+
+ARCHIVE_GOOD = ("honest", "extra_file")
+
+
+def archive_variants(wd, src, vseed):
+    """Altered state archives built from the honest zip of an UNCOMPACTED source (record offsets are then leaf
+    index * record size): one byte flipped in the data of an output unspent at the archive header (commitment,
+    features byte, range proof), in a kernel, in a leaf hash of each hash file; a missing file; a truncated kernel
+    data file; an unexpected extra member (harmless: only the expected files are unpacked)."""
+    import zipfile
+    rng = random.Random(vseed)
+    zp = os.path.join(src.dir, "archive.zip")
+    z = zipfile.ZipFile(zp)
+    order = [i.filename for i in z.infolist()]
+    data = {n: z.read(n) for n in order}
+    need = ["output/pmmr_data.bin", "output/pmmr_hash.bin", "rangeproof/pmmr_data.bin", "kernel/pmmr_data.bin", "kernel/pmmr_hash.bin"]
+    if any(n not in data for n in need):
+        raise ToolError("archive.zip of %s lacks an expected member: %s" % (src.name, order))
+    total = src.info["outputs_total"]
+    if len(data["output/pmmr_data.bin"]) != 34 * total or len(data["rangeproof/pmmr_data.bin"]) != 683 * total:
+        raise ToolError("archive data files of %s are not one record per output (compacted?)" % src.name)
+    plain = sorted((v["pos"], k) for k, v in src.info["twin"]["unspent"].items() if v and v.get("f") == "Plain")
+    if not plain:
+        raise ToolError("no unspent plain output at the archive header of %s" % src.name)
+    pos, name = plain[rng.randrange(len(plain))]
+    leaf = nleaves(pos) - 1
+
+    def flip(member, off):
+        d = dict(data)
+        b = bytearray(d[member])
+        b[off] ^= 1
+        d[member] = bytes(b)
+        return d
+
+    def write(kind, d, names=None):
+        p = os.path.join(wd, "archive_%s_%s.zip" % (src.name, kind))
+        with zipfile.ZipFile(p, "w", zipfile.ZIP_STORED) as o:
+            for n in (names or order):
+                o.writestr(n, d[n])
+        return {"kind": kind, "zip": p, "output": name, "leaf": leaf}
+    vs = [write("data_output", flip("output/pmmr_data.bin", leaf * 34 + 1 + rng.randrange(33))),
+          write("data_rangeproof", flip("rangeproof/pmmr_data.bin", leaf * 683 + 8 + rng.randrange(600))),
+          write("data_kernel", flip("kernel/pmmr_data.bin", 34 + rng.randrange(64))),
+          write("hash_output", flip("output/pmmr_hash.bin", (pos - 1) * 32 + rng.randrange(32))),
+          write("hash_kernel", flip("kernel/pmmr_hash.bin", 32 * 3 + rng.randrange(32))),
+          write("missing_file", data, [n for n in order if n != "kernel/pmmr_hash.bin"])]
+    d = dict(data)
+    d["kernel/pmmr_data.bin"] = d["kernel/pmmr_data.bin"][:len(d["kernel/pmmr_data.bin"]) * 3 // 10]
+    vs.append(write("truncated_kernel", d))
+    feat = write("data_output_features", flip("output/pmmr_data.bin", leaf * 34))
+    d = dict(data)
+    d["output/evil.bin"] = b"x" * 100
+    extra = write("extra_file", d, order + ["output/evil.bin"])
+    return [{"name": "archive_altered", "kind": "archive", "variants": vs, "vseed": vseed},
+            {"name": "archive_features", "kind": "archive", "variants": [feat], "vseed": vseed},
+            {"name": "archive_extra_file", "kind": "archive", "variants": [extra], "vseed": vseed}]
 
 
 def gen_orders(wd, src, n, seed):
@@ -323,7 +400,7 @@ def gen_orders(wd, src, n, seed):
         raise ToolError("MC_Desegmenter simulation failed")
     seen, orders = set(), []
     for x in r.printed("ORDER"):
-        if x not in seen:
+        if x not in seen and "ArchiveWrite" not in x:
             seen.add(x)
             orders.append(json.loads(x))
     if len(orders) < min(n, 3):
@@ -363,12 +440,15 @@ def run_scenarios(wd, src, scens, tag, parallel=2):
     return res
 
 
-def trace_of(cfg, result):
+def trace_of(cfg, result, ah=None):
     """Recorded events of one scenario -> trace lines for DesegmenterTrace (None if not a PIBD run)."""
     lines = [{"k": "Reset", "cfg": cfg}]
     for e in result["events"]:
         if e["k"] == "ArchiveWrite":
-            return None
+            if e["res"] == "panic" or (e["res"] == "ok" and e["kind"] not in ARCHIVE_GOOD):
+                return None      # reported with its own signature
+            lines.append({"k": "ArchiveWrite", "kind": e["kind"], "res": e["res"], "at_archive": e["head_height"] == ah})
+            continue
         if e["k"] == "Add":
             if e["verdict"] == "unavailable":
                 continue
@@ -414,19 +494,41 @@ def e2e_violations(rep, src, scen, result):
     case = {"kind": "e2e", "source": src.params, "scenario": scen}
     if result.get("tool_error"):
         raise ToolError("e2e scenario %s: %s" % (scen.get("name"), result["tool_error"]))
+    accepted_bad = any(e["k"] == "ArchiveWrite" and e["res"] == "ok" and e["kind"] not in ARCHIVE_GOOD for e in result.get("events", []))
     for p in result.get("problems", []):
+        if accepted_bad and p["sig"].startswith("sync:"):
+            continue      # consequences of the accepted altered archive, reported below with its own signature
         rep.violation(p["sig"], dict(case, problem=p), json.dumps(p)[:800])
+    breaking = False      # an accepted split_root segment is waiting in the cache: its batch must fail
     for e in result.get("events", []):
+        if e["k"] == "Add" and e.get("kind") == "split_root" and e.get("verdict") == "accept":
+            breaking = True
+        if e["k"] == "Restart":
+            breaking = False
         if e["k"] == "Add" and e.get("verdict") == "panic":
             rep.violation("pibd:add_%s_segment:panic:%s" % (e["tree"], e["kind"]), dict(case, event=e), json.dumps(e)[:300])
         if e["k"] == "Restart" and e.get("res") != "ok":
             rep.violation("pibd:restart:%s" % e.get("res"), dict(case, event=e), json.dumps(e)[:300])
-        if e["k"] == "Add" and e.get("verdict") == "accept" and e["kind"] not in ("honest", "poison_spent"):
+        if e["k"] == "Add" and e.get("verdict") == "accept" and e["kind"] not in ("honest", "poison_spent", "split_root"):
             rep.violation("pibd:add_%s_segment:accepted:%s" % (e["tree"], e["kind"]), dict(case, event=e), json.dumps(e)[:300])
+        if e["k"] == "Apply" and e.get("res") == "err" and breaking:
+            continue      # which Apply fails, and what it leaves behind, is decided by DesegmenterTrace
         if e["k"] == "Apply" and e.get("res") != "ok":
             rep.violation("pibd:apply_next_segments:%s" % e.get("res"), dict(case, event=e), json.dumps(e)[:300])
-        if e["k"] == "ArchiveWrite" and e["res"] != "ok":
-            rep.violation("archive:txhashset_write:%s" % e["res"].split(":")[0], dict(case, event=e), json.dumps(e)[:300])
+        if e["k"] == "ArchiveWrite":
+            ah = src.info["archive"]["height"]
+            if e["res"] == "panic":
+                rep.violation("archive:txhashset_write:panic:%s" % e["kind"], dict(case, event=e), json.dumps(e)[:300])
+            elif e["res"] == "ok" and e["kind"] not in ARCHIVE_GOOD:
+                accepted_bad = True
+                rep.violation("archive:txhashset_write:accepted:%s" % e["kind"], dict(case, event=e),
+                              "an altered state archive (%s) was accepted and finalised: %s" % (e["kind"], json.dumps(result.get("final"))[:300]))
+            elif e["res"] != "ok" and e["kind"] in ARCHIVE_GOOD:
+                rep.violation("archive:txhashset_write:refused:%s" % e["kind"], dict(case, event=e), json.dumps(e)[:300])
+            elif e["res"] != "ok" and e["head_height"] != 0:
+                rep.violation("archive:txhashset_write:refused_but_head_moved:%s" % e["kind"], dict(case, event=e), json.dumps(e)[:300])
+            elif e["res"] == "ok" and e["head_height"] != ah:
+                rep.violation("archive:txhashset_write:accepted_but_head_elsewhere:%s" % e["kind"], dict(case, event=e), json.dumps(e)[:300])
     fin = result.get("final") or {}
     # every scenario ends by delivering all honest segments: it must complete and finalise
     if scen["kind"] == "pibd" and not result.get("problems"):
@@ -438,9 +540,11 @@ def e2e_violations(rep, src, scen, result):
 
 def run_e2e(rep, wd, src, n_orders, seed, cov):
     orders, r = gen_orders(wd, src, n_orders, seed)
-    scens = fixed_scenarios(src.cfg)
+    scens = fixed_scenarios(src.cfg, src.info.get("split"))
     for i, o in enumerate(orders):
         scens.append({"name": "order_%d" % i, "kind": "pibd", "steps": tidy_order(o, src.cfg), "tlc_order": o})
+    if src.name in ("plain", "plain2"):
+        scens += archive_variants(wd, src, seed)
     if src.info["compacted"]:
         scens.append({"name": "restart_probe", "kind": "restart_probe"})
     for s in scens:
@@ -456,6 +560,10 @@ def run_e2e(rep, wd, src, n_orders, seed, cov):
             fz = [e["res"] for e in result.get("events", []) if e["k"] == "Finalize"]
             if len(fz) == 2 and fz[0] == "err":
                 cov["refused_attempt_then_retry"] += 1
+        if scen["name"].startswith("split_root_"):
+            ev = result.get("events", [])
+            if any(e["k"] == "Apply" and e.get("res") == "err" for e in ev) and ev and ev[-1]["k"] == "Finalize" and ev[-1]["res"] == "ok":
+                cov["split_root_batch_refused_then_retry"] += 1
         fin = e2e_violations(rep, src, scen, result)
         cov["scenarios"] += 1
         if fin.get("finalised"):
@@ -464,7 +572,10 @@ def run_e2e(rep, wd, src, n_orders, seed, cov):
             if e["k"] == "Add":
                 key = "%s:%s" % (e["kind"], e["verdict"])
                 cov["deliveries"][key] = cov["deliveries"].get(key, 0) + 1
-        lines = trace_of(src.cfg, result)
+            if e["k"] == "ArchiveWrite":
+                key = "%s:%s" % (e["kind"], e["res"])
+                cov["archives"][key] = cov["archives"].get(key, 0) + 1
+        lines = trace_of(src.cfg, result, src.info["archive"]["height"])
         if lines:
             per.append((scen, len(all_lines), lines))
             all_lines += lines
@@ -487,6 +598,169 @@ def run_e2e(rep, wd, src, n_orders, seed, cov):
             sig = "pibd:trace:rejected"
         rep.violation(sig, {"kind": "trace", "trace": keep, "source": src.params, "scenario": scen_hit, "rejected": line}, line)
     return len(scens), all_lines, res
+
+
+# ------------------------------------------------------------------------------------------------
+# serving side (spec/SegmentServe.tla)
+
+def plan_score(p):
+    sc, comp, fors = 0, False, set()
+    for e in p:
+        if e["k"] == "Compact":
+            comp = True
+        if e["k"] == "Serve":
+            fors.add((e["for"], e["body"], e["hdr"]))
+            if e["ahead"]:
+                sc += 4
+            if comp:
+                sc += 6
+                comp = False
+    return sc + len(fors)
+
+
+def gen_serve_plans(src, n, seed):
+    """Serving plans for a node fed from the source's blocks: TLC simulation of SegmentServe.tla; the plans in which
+    the header chain runs more than an archive period ahead of the bodies at a Serve, and those that serve after a
+    compaction, come first."""
+    r = vlib.tlc("mc/MC_SegmentServe", "mc/MC_SegmentServe_sim", workers=1, coverage=False, timeout=600,
+                 env={"SERVE_MAXH": src.info["blocks"]}, simulate=300, depth=12, seed_=seed)
+    if r.invariant_violated or "Error:" in r.out:
+        print(r.out[-3000:])
+        raise ToolError("MC_SegmentServe simulation failed")
+    plans = sorted(set(r.printed("SERVEPLAN")))
+    random.Random(seed).shuffle(plans)
+    plans = [json.loads(x) for x in plans]
+    plans.sort(key=lambda p: -plan_score(p))
+
+    def compact_then_serve(p):
+        ks = [e["k"] for e in p]
+        return "Compact" in ks and "Serve" in ks[ks.index("Compact"):]
+
+    def ahead(p):
+        return any(e["k"] == "Serve" and e["ahead"] for e in p)
+    # one plan of each wanted shape first, then by score
+    first = [next((p for p in plans if ahead(p)), None)]
+    if src.info["compacted"]:
+        first.append(next((p for p in plans if compact_then_serve(p)), None))
+        if first[-1] is None:
+            raise ToolError("no serving plan that compacts and then serves")
+    first = [p for p in first if p is not None]
+    plans = (first + [p for p in plans if p not in first])[:max(n, len(first))]
+    if not plans or not any(e["k"] == "Serve" and e["ahead"] for p in plans for e in p):
+        raise ToolError("no serving plan with the header chain an archive period ahead of the body chain")
+    return [{"name": "serve_%d" % i, "steps": p} for i, p in enumerate(plans)]
+
+
+def start_serve(wd, src, plans, tag="a"):
+    pp = os.path.join(wd, "serve_plans_%s_%s.ndjson" % (src.name, tag))
+    op = os.path.join(wd, "serve_out_%s_%s.ndjson" % (src.name, tag))
+    vlib.write_ndjson(pp, plans)
+    exe = os.path.join(vlib.HARNESS_BINDIR, "h_segment")
+    p = subprocess.Popen([exe, "e2e", "serve", "--dir", src.dir, "--work", os.path.join(wd, "srv_%s_%s" % (src.name, tag)),
+                          "--plans", pp, "--out", op], stdout=subprocess.PIPE, stderr=subprocess.PIPE, text=True)
+    return p, op, plans
+
+
+def finish_serve(rep, src, started, cov):
+    """Compare every step of every plan with SegmentServe.tla's expectation: heads after the step; at a Serve the
+    header the segmenter is labelled with is at or below the body head, on the node's chain, and every segment it
+    hands out validates against that header's roots (refusing to serve is allowed)."""
+    p, op, plans = started
+    try:
+        out, err = p.communicate(timeout=900)
+    except subprocess.TimeoutExpired:
+        p.kill()
+        raise ToolError("e2e serve timeout")
+    if p.returncode != 0:
+        print(out[-2000:], err[-3000:])
+        raise ToolError("e2e serve failed")
+    res = vlib.read_ndjson(op)
+    if len(res) != len(plans):
+        raise ToolError("e2e serve returned %d results for %d plans" % (len(res), len(plans)))
+    sc = cov["serve"]
+    for plan, r in zip(plans, res):
+        if r.get("tool_error"):
+            raise ToolError("serve plan %s on %s: %s" % (plan["name"], src.name, r["tool_error"]))
+        if len(r["events"]) != len(plan["steps"]):
+            raise ToolError("serve plan %s: %d events for %d steps" % (plan["name"], len(r["events"]), len(plan["steps"])))
+        sc["plans"] += 1
+        for i, (st, ev) in enumerate(zip(plan["steps"], r["events"])):
+            case = {"kind": "serve", "source": src.params, "plan": {"name": plan["name"], "steps": plan["steps"][:i + 1]}, "event": ev}
+            if (ev["body"], ev["hdr"]) != (st["body"], st["hdr"]):
+                raise ToolError("serve plan %s step %d: heads %s/%s, model %s/%s" % (plan["name"], i, ev["body"], ev["hdr"], st["body"], st["hdr"]))
+            if st["k"] == "Compact":
+                if ev["res"] != "ok":
+                    raise ToolError("serve plan %s: Chain::compact %s" % (plan["name"], ev["res"]))
+                sc["compactions"] += 1
+                continue
+            if st["k"] != "Serve":
+                continue
+            sc["serves"] += 1
+            if st["ahead"]:
+                sc["serves_header_chain_ahead"] += 1
+            shape = "ahead" if st["ahead"] else "in_sync"
+            if ev["res"] == "panic":
+                rep.violation("pibd:serve:segmenter:panic:%s" % shape, case, json.dumps(ev)[:400])
+                continue
+            if ev["res"] == "refused":
+                sc["refused"] += 1
+                continue
+            g = ev["seg"]
+            sc["segments_validated"] += g["served"]
+            bad = False
+            if g["for"] > ev["body"]:
+                bad = True
+                rep.violation("pibd:serve:archive_header_above_body_head", case,
+                              "segmenter labelled with header %d, body head %d, header head %d" % (g["for"], ev["body"], ev["hdr"]))
+            if not g["on_chain"]:
+                bad = True
+                rep.violation("pibd:serve:archive_header_not_on_chain", case, json.dumps(g)[:400])
+            if g["n_invalid"]:
+                bad = True
+                trees = sorted(set(x["tree"] for x in g["invalid"]))
+                rep.violation("pibd:serve:%s_segment:invalid_for_own_header:%s" % (trees[0], shape), case,
+                              "%d of %d served segments do not validate against the header (height %d) they are served for: %s"
+                              % (g["n_invalid"], g["served"], g["for"], json.dumps(g["invalid"][:3])))
+            if g["n_errors"] and st["valid"] and not bad:
+                rep.violation("pibd:serve:%s_segment:error:%s" % (g["errors"][0]["tree"], shape), case, json.dumps(g["errors"][:3]))
+                bad = True
+            if not bad:
+                if g["served"] == 0:
+                    raise ToolError("serve plan %s: no segment served" % plan["name"])
+                if g["for"] == st["for"]:
+                    sc["serves_equal_model"] += 1
+                else:
+                    # a held state other than the model's: not what C16 constrains
+                    sc["archive_height_differs_from_model"] += 1
+                if st["cached"]:
+                    sc["serves_from_cached_segmenter"] += 1
+            if len(sc["samples"]) < 3 and st["ahead"]:
+                sc["samples"].append({"source": src.name, "body": ev["body"], "hdr": ev["hdr"], "for": g["for"], "served": g["served"], "invalid": g["n_invalid"]})
+    return res
+
+
+def serve_model(thorough):
+    """(M) SegmentServe.tla exhaustively over the stop heights of a 105-block chain."""
+    r = vlib.tlc("mc/MC_SegmentServe", "mc/MC_SegmentServe", workers=2, coverage=False, timeout=900, env={"SERVE_MAXH": 105})
+    if r.invariant_violated:
+        print(r.out[-3000:])
+        raise ToolError("SegmentServe.tla invariant %s violated inside the model" % r.invariant_violated)
+    vlib.tlc_ok(r, "MC_SegmentServe")
+    shown = []
+    if thorough:
+        for mcfg in ("mc/MC_SegmentServe_mut_header", "mc/MC_SegmentServe_mut_compact"):
+            rm = vlib.tlc("mc/MC_SegmentServe", mcfg, workers=2, coverage=False, timeout=900, env={"SERVE_MAXH": 105})
+            if "ServedStateHeld" not in rm.invariant_violated:
+                print(rm.out[-2000:])
+                raise ToolError("mutant model %s does not violate ServedStateHeld" % mcfg)
+            shown.append(mcfg)
+    return r, shown
+
+
+def new_serve_cov():
+    return {"plans": 0, "serves": 0, "serves_header_chain_ahead": 0, "serves_equal_model": 0, "refused": 0,
+            "archive_height_differs_from_model": 0, "serves_from_cached_segmenter": 0, "compactions": 0,
+            "segments_validated": 0, "samples": []}
 
 
 def selftest(wd, lines):
@@ -525,6 +799,11 @@ def do_replay(rep, wd, obj):
             rep.violation(obj["signature"], case, json.dumps(x))
     elif case["kind"] == "component":
         checks, ops, res = run_component(rep, wd, [case["case"]], "replay")
+    elif case["kind"] == "serve":
+        p = case["source"]
+        src = Source(p["name"], wd, p["blocks"], p["compact_at"], p["stale_at"], p["seed"], p.get("heights")).start().wait()
+        cov = {"serve": new_serve_cov()}
+        finish_serve(rep, src, start_serve(wd, src, [case["plan"]], "replay"), cov)
     elif case["kind"] == "trace":
         lines = vlib.read_ndjson(case["trace"])
         ok, why, _, _ = validate_traces(wd, lines, "replay")
@@ -533,10 +812,14 @@ def do_replay(rep, wd, obj):
     else:
         p = case["source"]
         src = Source(p["name"], wd, p["blocks"], p["compact_at"], p["stale_at"], p["seed"], p.get("heights")).start().wait()
-        res = run_scenarios(wd, src, [case["scenario"]], "replay", parallel=1)
+        scen = case["scenario"]
+        if scen.get("variants"):
+            # the altered zips live in the (cleaned) work directory: rebuild them from the rebuilt source
+            scen = [x for x in archive_variants(wd, src, scen["vseed"]) if x["name"] == scen["name"]][0]
+        res = run_scenarios(wd, src, [scen], "replay", parallel=1)
         for scen, result in res:
             e2e_violations(rep, src, scen, result)
-            lines = trace_of(src.cfg, result)
+            lines = trace_of(src.cfg, result, src.info["archive"]["height"])
             if lines:
                 ok, why, _, _ = validate_traces(wd, lines, "replay")
                 if not ok:
@@ -563,8 +846,9 @@ def run(tier, replay):
     hook = vlib.harness(["segment", "e2e", "hook"]).stdout.strip() == "true"
     if hook:
         sources.append(Source("multi", wd, 64, 0, 54, seed + 3, heights="9,5,5,4").start())
-        if thorough:
-            sources.append(Source("multi_compacted", wd, 105, 85, 95, seed + 4, heights="9,4,4,5").start())
+        # several segments per tree over a COMPACTED source: pruned roots that stand for several segments
+        # (push_pruned_subtree, the back-step of next_required_*_segment_index, batches across pruned segments)
+        sources.append(Source("multi_compacted", wd, 105, 85, 95, seed + 4, heights="9,4,4,5").start())
 
     # (M + A) component level
     t0 = time.time()
@@ -633,10 +917,13 @@ def run(tier, replay):
                 print(r_mut.out[-2000:])
                 raise ToolError("mutant model %s does not violate %s" % (mcfg, inv))
             mutants_shown.append(mcfg)
+    # (M) serving side: which state a node offers when its header chain runs ahead of its body chain
+    r_srv, srv_mutants = serve_model(thorough)
     t_des = time.time() - t0
 
     # (A/B) end to end
-    cov = {"scenarios": 0, "finalised": 0, "deliveries": {}, "trace_events": 0, "observations": {}, "refused_attempt_then_retry": 0}
+    cov = {"scenarios": 0, "finalised": 0, "deliveries": {}, "trace_events": 0, "observations": {}, "refused_attempt_then_retry": 0,
+           "split_root_batch_refused_then_retry": 0, "archives": {}, "serve": new_serve_cov()}
     n_orders = 14 if thorough else 5
     samples = []
     src_info = []
@@ -647,6 +934,9 @@ def run(tier, replay):
         src_info.append({"name": s.name, "blocks": s.info["blocks"], "spends": s.info["spends"], "compacted": s.info["compacted"],
                          "archive_height": a["height"], "output_leaves": a["output_leaves"], "build_s": round(s.wall, 1),
                          "odd_leaves_last_output_spent_later": s.info.get("shape"),
+                         "pruned_root_over_several_segments": any(
+                             sum(1 for x in a[t].get("top", []) if x == tp) > 1 for t in ("output", "rangeproof") for tp in a[t].get("top", [])),
+                         "split_variants": sum(len(v) for v in (s.info.get("split") or {}).values()),
                          "segments": {t: {"n": a[t]["nseg"], "leaves": a[t]["leaves"], "hashes": a[t]["hashes"],
                                           "complete": a[t]["complete"]} for t in TREES}})
         for er in a.get("errors", []):
@@ -657,7 +947,12 @@ def run(tier, replay):
                           "txhashset_read failed on the source")
         if not s.info["twin"]["validate"] or not s.info["source"]["validate"]:
             raise ToolError("twin or source chain does not validate: harness problem")
-        n, lines, res = run_e2e(rep, wd, s, n_orders, seed + 31 * i, cov)
+        # (A) serving side: a node fed with this source's headers and blocks by plans of SegmentServe.tla
+        n_plans = {"plain": 8 if thorough else 3, "compacted": 8 if thorough else 2}.get(s.name, 4 if thorough else 0)
+        serving = start_serve(wd, s, gen_serve_plans(s, n_plans, seed + 17 * i)) if n_plans else None
+        n, lines, res = run_e2e(rep, wd, s, n_orders if (thorough or s.name != "multi_compacted") else 2, seed + 31 * i, cov)
+        if serving:
+            finish_serve(rep, s, serving, cov)
         if first_lines is None:
             first_lines = [l for l in lines]
         if res:
@@ -669,18 +964,30 @@ def run(tier, replay):
         if comp and all(all(x["segments"]["output"]["complete"]) for x in comp):
             raise ToolError("the compacted source served only complete output segments: compaction did not bite")
     multi = [x for x in src_info if max(x["segments"][t]["n"] for t in ("output", "rangeproof")) > 1]
+    if hook and not any(x["compacted"] and x["pruned_root_over_several_segments"] for x in multi):
+        raise ToolError("no compacted multi-segment source has a pruned root standing for several segments")
     if multi and not any((x["odd_leaves_last_output_spent_later"] or {}).get("odd") and
                          (x["odd_leaves_last_output_spent_later"] or {}).get("last_spent_at") for x in multi):
         raise ToolError("no multi-segment source has an odd output count whose last output is spent after the archive header")
     st = selftest(wd, first_lines[:400]) if first_lines else 0
     if cov["finalised"] == 0:
         raise ToolError("no scenario finalised: vacuous run")
+    if not rep.violations and sum(n for k, n in cov["archives"].items() if k.endswith(":refused")) < 5:
+        raise ToolError("fewer than 5 altered state archives were refused: %s" % cov["archives"])
+    sv = cov["serve"]
+    if sv["serves_header_chain_ahead"] == 0 or sv["serves_equal_model"] == 0:
+        raise ToolError("serving side: no Serve with the header chain ahead / none equal to the model: vacuous run")
+    if any(x["compacted"] for x in src_info) and sv["compactions"] == 0:
+        raise ToolError("serving side: no plan compacted the serving node")
+    if any(x["split_variants"] for x in src_info) and cov["split_root_batch_refused_then_retry"] == 0:
+        raise ToolError("no split-root delivery was refused at apply time and followed by a completed retry")
     if cov["refused_attempt_then_retry"] == 0:
         raise ToolError("no source produced a refused first attempt (poisoned spent leaf) followed by a retry")
 
     rep.coverage = {
-        "states": r_seg.distinct + r_des.distinct + r_retry.distinct, "transitions": r_seg.generated + r_des.generated + r_retry.generated,
-        "traces_validated_against_impl": len(cases) + cov["scenarios"],
+        "states": r_seg.distinct + r_des.distinct + r_retry.distinct + r_srv.distinct,
+        "transitions": r_seg.generated + r_des.generated + r_retry.generated + r_srv.generated,
+        "traces_validated_against_impl": len(cases) + cov["scenarios"] + sv["plans"],
         "samples": samples[:3] + [{"segment_case": {k: cases[len(cases) // 2][k] for k in ("nl", "rm", "comp", "late")},
                                    "first_seg": {k: v for k, v in cases[len(cases) // 2]["segs"][0].items() if k != "ops"}}],
         "exhaustive": True,
@@ -695,14 +1002,17 @@ def run(tier, replay):
                 "deliveries_by_kind_verdict": cov["deliveries"], "trace_events_validated": cov["trace_events"],
                 "selftests": st, "segment_height_hook_present": hook,
                 "refused_attempt_restart_honest_retry_runs": cov["refused_attempt_then_retry"],
+                "archive_writes_by_kind_result": cov["archives"],
+                "split_root_batch_refused_then_retry_runs": cov["split_root_batch_refused_then_retry"],
                 "observations": cov["observations"]},
-        "checker_cmd": "tlc mc/MC_Segment; tlc mc/MC_Desegmenter; tlc trace/DesegmenterTrace",
+        "serving_side": dict(sv, model={"states": r_srv.distinct, "transitions": r_srv.generated, "mutant_models_violate": srv_mutants}),
+        "checker_cmd": "tlc mc/MC_Segment; tlc mc/MC_Desegmenter; tlc mc/MC_SegmentServe; tlc trace/DesegmenterTrace",
     }
     rep.assumptions = [
         "blake2b / hash_with_index used as an injective primitive (symbolic terms in Segment.tla)",
         "bulletproofs, signatures and Pedersen commitments are primitives (validated by the real code, not modelled)",
         "segment heights: component level 0..3 on MMRs of <= 40 leaves; end to end the default pibd_params heights (one segment per tree on the chains built here) unless the cfg(grin_verif) hook is present",
-        "the serving node's compaction horizon is not above the archive header (holds for mainnet constants; the harness compacts at height 85 and serves the archive header 80)",
+        "the serving node's compaction horizon is not above the archive header (holds for mainnet constants; the harness compacts at height 85 and serves the archive header 80; the serving plans of SegmentServe.tla compact only at head % 10 == 0 because cut-through horizon == state-sync threshold on AutomatedTesting)",
         "receiver follows state_sync.rs: apply_next_segments, check_progress, check_update_leaf_set_state, validate_complete_state; request scheduling (next_desired_segments) is only recorded and compared with its transcription",
     ]
     return rep.finish()
